@@ -115,6 +115,20 @@ def o_int_range(rec: Recorder, case, soft=False):
         rec.fail(f"C12/int-range/{name}/int{bits}", f"{name}.encode_int{bits}({value}) out of range did not raise ValueError", "int_range", case, repr(r), "ValueError", soft=soft)
 
 
+@oracle(PROPERTY, "int_decode_range")
+def o_int_decode_range(rec: Recorder, case, soft=False):
+    """case: {engine, text}: decode_int64 of any 11-character text over the alphabet is a 64-bit integer, or the text is refused"""
+    name = case["engine"]
+    eng = engines()[name][0]
+    st, r = call(eng.decode_int64, case["text"])
+    if st == "err" and isinstance(r, ValueError):
+        return
+    if st == "err":
+        raise r
+    if not (isinstance(r, int) and 0 <= r < (1 << 64)):
+        rec.fail(f"C12/int-decode-range/{name}", f"{name}.decode_int64 returns a value outside 0..2^64-1 for an 11-character text", "int_decode_range", case, repr(r), "0 <= value < 2**64 or ValueError", soft=soft)
+
+
 @oracle(PROPERTY, "decode_reject")
 def o_decode_reject(rec: Recorder, case, soft=False):
     """case: {engine, method, text(bytes)}: malformed text must raise ValueError"""
@@ -246,6 +260,7 @@ ORACLES = {
     "engine_bytes": o_engine_bytes,
     "engine_int": o_engine_int,
     "int_range": o_int_range,
+    "int_decode_range": o_int_decode_range,
     "decode_reject": o_decode_reject,
     "padding": o_padding,
     "helper_b64": o_helper_b64,
@@ -342,6 +357,14 @@ def t_reject(rec, seed, tier):
             for v in (-1, 1 << bits, (1 << bits) + 1, 1 << (bits + 7), -(1 << bits)):
                 o_int_range(rec, {"engine": name, "bits": bits, "value": v}, soft=True)
                 n += 1
+        # 11 characters carry 66 bits: whatever the two spare bits are, a decoded 64-bit integer is a 64-bit integer (or the text is refused)
+        for v in (0, 1, (1 << 64) - 1, 0x0123456789ABCDEF, 1 << 63):
+            canon = eng.encode_int64(v)
+            for pos in (0, 10):
+                for c in a:
+                    alt = canon[:pos] + bytes([c]) + canon[pos + 1:]
+                    n += 1
+                    o_int_decode_range(rec, {"engine": name, "text": alt}, soft=True)
     for impl in ("passlib", "libpass"):
         for fn in ("b64s_decode", "ab64_decode"):
             for text in (b"A", b"AAAAA", "A" * 9, "AAé", "ĀAA"):
